@@ -1155,9 +1155,15 @@ impl EnergyWorld {
         // a burst of more than MAX_CLAIM_UNLOCKED_TOKENS early unlocks, then claims
         if rng.chance(1, 120) && !s.paused {
             if let Some(h) = hold.iter().find(|h| h.3 > now + self.unbond && h.2 > BigUint::from(30u32) && f_penalty(&s.opts, &BigUint::from(3u32), h.3 - now, 0).map(|p| p < BigUint::from(3u32)).unwrap_or(false)) {
-                self.pending.push(format!("claim {}", h.0));
-                self.pending.push(format!("claim {}", h.0));
-                self.pending.push(format!("advance {}", now + self.unbond));
+                if rng.chance(1, 2) {
+                    self.pending.push(format!("claim {}", h.0));
+                    self.pending.push(format!("claim {}", h.0));
+                    self.pending.push(format!("advance {}", now + self.unbond));
+                } else {
+                    // … or cancelled in one go: cancelUnbond has no per-call limit, every pending entry comes back
+                    self.pending.push(format!("claim {}", h.0));
+                    self.pending.push(format!("cancel {}", h.0));
+                }
                 for _ in 0..(22 - s.users[(h.0 - 1) as usize].queue.len().min(21)) {
                     self.pending.push(format!("unlockEarly {} {} 3", h.0, h.1));
                 }
